@@ -9,43 +9,82 @@ From Coq Require Import List String ZArith QArith Bool.
 From YP Require Import Outcome PyStr PyVal Doc PathParser.
 Import ListNotations.
 
-Section Members.
+(* ---- max / min: stated for any order [le] on comparable values ("w is at
+   most v").  The orders used: numeric ([num_le key]: by numeric value) for
+   collections of numbers, lexicographic on the text ([text_le]) for text. ---- *)
+Section MembersBy.
 Variable C : Type.                       (* coordinates *)
 Definition member := (option pyval * C)%type.
-
-(* numeric key of a comparable value *)
-Variable key : pyval -> Q.
+Variable le : pyval -> pyval -> Prop.
 
 (* v is greatest / least: no member's value exceeds / undercuts it *)
-Definition is_max (v : pyval) (ms : list member) : Prop :=
-  forall w c, In (Some w, c) ms -> (key w <= key v)%Q.
-Definition is_min (v : pyval) (ms : list member) : Prop :=
-  forall w c, In (Some w, c) ms -> (key v <= key w)%Q.
+Definition is_max_by (v : pyval) (ms : list member) : Prop :=
+  forall w c, In (Some w, c) ms -> le w v.
+Definition is_min_by (v : pyval) (ms : list member) : Prop :=
+  forall w c, In (Some w, c) ms -> le v w.
 
 (* the members max / min return ... *)
-Definition max_members (ms : list member) (c : C) : Prop :=
-  exists v, In (Some v, c) ms /\ is_max v ms.
-Definition min_members (ms : list member) (c : C) : Prop :=
-  exists v, In (Some v, c) ms /\ is_min v ms.
+Definition max_members_by (ms : list member) (c : C) : Prop :=
+  exists v, In (Some v, c) ms /\ is_max_by v ms.
+Definition min_members_by (ms : list member) (c : C) : Prop :=
+  exists v, In (Some v, c) ms /\ is_min_by v ms.
 (* ... and, inverted, exactly the others *)
-Definition non_max_members (ms : list member) (c : C) : Prop :=
-  exists ov, In (ov, c) ms /\ match ov with None => True | Some v => ~ is_max v ms end.
-Definition non_min_members (ms : list member) (c : C) : Prop :=
-  exists ov, In (ov, c) ms /\ match ov with None => True | Some v => ~ is_min v ms end.
+Definition non_max_members_by (ms : list member) (c : C) : Prop :=
+  exists ov, In (ov, c) ms /\ match ov with None => True | Some v => ~ is_max_by v ms end.
+Definition non_min_members_by (ms : list member) (c : C) : Prop :=
+  exists ov, In (ov, c) ms /\ match ov with None => True | Some v => ~ is_min_by v ms end.
+End MembersBy.
+
+(* numbers: by a numeric key *)
+Definition num_le (key : pyval -> Q) (a b : pyval) : Prop := (key a <= key b)%Q.
+(* text: lexicographic by code point *)
+Definition text_le (a b : pyval) : Prop := str_leb (py_str a) (py_str b) = true.
+
+Section Members.
+Variable C : Type.
+Variable key : pyval -> Q.
+Definition is_max := is_max_by C (num_le key).
+Definition is_min := is_min_by C (num_le key).
+Definition max_members := max_members_by C (num_le key).
+Definition min_members := min_members_by C (num_le key).
+Definition non_max_members := non_max_members_by C (num_le key).
+Definition non_min_members := non_min_members_by C (num_le key).
 End Members.
 
-(* unique / distinct: groups of equal values (Python ==: 1 == 1.0 == True) *)
+(* unique / distinct: groups of equal values (Python ==: 1 == 1.0 == True;
+   null == null).  A member is (value, coordinates); a record without the
+   attribute is no member. *)
 Section Groups.
 Variable C : Type.
 Definition vmember := (pyval * C)%type.
+(* how many members carry a value equal to v *)
 Definition occurrences (v : pyval) (ms : list vmember) : nat :=
   List.length (filter (fun m => py_eq (fst m) v) ms).
-(* first member of its group: no earlier member has an equal value *)
-Fixpoint firsts (seen : list pyval) (ms : list vmember) : list C :=
+(* unique: the members whose value occurs once, in collection order *)
+Definition once_members (ms : list vmember) : list C :=
+  map snd (filter (fun m => Nat.eqb (occurrences (fst m) ms) 1) ms).
+(* unique inverted: the members whose value occurs more than once *)
+Definition repeated_member (ms : list vmember) (c : C) : Prop :=
+  exists v, In (v, c) ms /\ 1 < occurrences v ms.
+(* the members whose value equals v, in collection order *)
+Definition group_of (v : pyval) (ms : list vmember) : list C :=
+  map snd (filter (fun m => py_eq (fst m) v) ms).
+(* first member of its group = no earlier member has an equal value; in
+   order of first occurrence ([seen]: the values met so far) *)
+Fixpoint first_members (seen : list pyval) (ms : list vmember) : list vmember :=
   match ms with
   | [] => []
-  | (v, c) :: r => if existsb (fun w => py_eq w v) seen then firsts seen r else c :: firsts (v :: seen) r
+  | (v, c) :: r =>
+      if existsb (fun w => py_eq w v) seen then first_members seen r
+      else (v, c) :: first_members (v :: seen) r
   end.
+(* distinct *)
+Definition firsts (seen : list pyval) (ms : list vmember) : list C := map snd (first_members seen ms).
+(* unique inverted, in the order the members are yielded: group by group, the
+   groups in order of first occurrence (as a set: [repeated_member]) *)
+Definition repeated_grouped (ms : list vmember) : list C :=
+  flat_map (fun m => if Nat.ltb 1 (occurrences (fst m) ms) then group_of (fst m) ms else [])
+           (first_members [] ms).
 End Groups.
 
 (* has_child: the hashes having (inverted: lacking) the key *)
